@@ -31,13 +31,19 @@ PyS(op, l, r, ls, rs) ==
 \* depth 2: (l op1 r) op2 c   and   c op2 (l op1 r), with an arithmetic inner operator
 Tree2 == IF Depth2 THEN [k : {"left2", "right2"}, op1 : BinOps, op2 : BinOps \cup CmpOps, l : Types, r : Types, c : Types] ELSE {}
 
-TypeOf(x) == CASE x.k = "bin" -> PyS(x.op, x.l, x.r, x.ls, x.rs)
+\* chained comparison  l != r op2 c  (Python: (l != r) and (r op2 c), the middle operand evaluated once).  With operands
+\* of two different core types the first link is true whatever the values, so the second link IS evaluated: it compares
+\* the MIDDLE operand with the last one
+Chain == [k : {"chain"}, op1 : {"!="}, op2 : CmpOps, l : Types, r : Types, c : Types]
+ChainCells == {x \in Chain : x.l # x.r}
+TypeOf(x) == CASE x.k = "chain" -> (IF Py(x.op2, x.r, x.c) = "err" THEN "err" ELSE "bool")
+               [] x.k = "bin" -> PyS(x.op, x.l, x.r, x.ls, x.rs)
                [] x.k = "left2" -> (LET inner == Py(x.op1, x.l, x.r) IN
                                     IF inner \in {"err", "valuedep"} THEN inner ELSE Py(x.op2, inner, x.c))
                [] x.k = "right2" -> (LET inner == Py(x.op1, x.l, x.r) IN
                                      IF inner \in {"err", "valuedep"} THEN inner ELSE Py(x.op2, x.c, inner))
                [] OTHER -> x.t
-Init == e \in Cell \cup Tree2 /\ verdict = "pending"
+Init == e \in Cell \cup Tree2 \cup ChainCells /\ verdict = "pending"
 Judge == verdict = "pending" /\ verdict' = TypeOf(e) /\ UNCHANGED e
 Spec == Init /\ [][Judge]_vars
 
